@@ -351,7 +351,32 @@ static void history(Rng &r, size_t steps)
             }
             case 12: s.set_validated(t.c_str(), t.size()); p.shadow[i] = mt; d = sfmt("s%zu.set_validated(s%zu bytes)", i, j); if (i == j) vrt::count("op.self_referential"); break;
             case 13: s = s.substr(1); p.shadow[i] = ref::substr(p.shadow[i], 1, static_cast<size_t>(-1)); d = sfmt("s%zu = s%zu.substr(1)", i, i); vrt::count("op.self_referential"); break;
-            case 14: s.set(s); d = sfmt("s%zu.set(self)", i); vrt::count("op.self_referential"); break;
+            case 14:
+                // assignment from a pointer / view into the string's own storage
+                switch (r.below(6)) {
+                case 0: s.set(s); d = sfmt("s%zu.set(self)", i); break;
+                case 1: { size_t z = p.shadow[i].find('\0'); S want = z == S::npos ? p.shadow[i] : p.shadow[i].substr(0, z);
+                          d = sfmt("s%zu = s%zu.c_str()", i, i);
+                          try { s = s.c_str(); p.shadow[i] = want; } catch (const ST::unicode_error &) { if (ref::utf8_ok(want)) p.fail("unexpected-unicode_error", d); }
+                          break; }
+                case 2: { size_t k = r.below(p.shadow[i].size() + 1), n = r.below(p.shadow[i].size() - k + 1); S want = p.shadow[i].substr(k, n);
+                          d = sfmt("s%zu.set(s%zu.c_str()+%zu,%zu,assume_valid)", i, i, k, n);
+                          s.set(s.c_str() + k, n, ST::assume_valid); p.shadow[i] = want; break; }
+                case 3: { size_t k = r.below(p.shadow[i].size() + 1), n = r.below(p.shadow[i].size() - k + 1); S want = p.shadow[i].substr(k, n);
+                          d = sfmt("s%zu = s%zu.view(%zu,%zu)", i, i, k, n);
+                          try { s = s.view(k, n); p.shadow[i] = want; } catch (const ST::unicode_error &) { if (ref::utf8_ok(want)) p.fail("unexpected-unicode_error", d); }
+                          break; }
+                case 4: { size_t z = p.shadow[i].find('\0'); S want = z == S::npos ? p.shadow[i] : p.shadow[i].substr(0, z);
+                          d = sfmt("s%zu = s%zu.u8_str()", i, i);
+                          try { s = s.u8_str(); p.shadow[i] = want; } catch (const ST::unicode_error &) { if (ref::utf8_ok(want)) p.fail("unexpected-unicode_error", d); }
+                          break; }
+                default: { size_t z = p.shadow[i].find('\0'); S tail = z == S::npos ? p.shadow[i] : p.shadow[i].substr(0, z);
+                          d = sfmt("s%zu += s%zu.c_str()", i, i);
+                          try { s += s.c_str(); p.shadow[i] += tail; } catch (const ST::unicode_error &) { if (ref::utf8_ok(tail)) p.fail("unexpected-unicode_error", d); }
+                          break; }
+                }
+                vrt::count("op.self_referential");
+                break;
             default: { ST::string tmp(std::move(s)); p.moved_from[i] = true; d = sfmt("move-construct from s%zu, then destroy the new object", i); vrt::count("op.move"); break; }
             }
             p.log(d);
